@@ -182,7 +182,12 @@ func drawStop(rt *rapid.T, o gen.HistOpt, kinds []string) *StopCase {
 	}
 	c.PrevOK = rapid.IntRange(0, 4).Draw(rt, "prev_ok") == 0
 	if c.PrevOK {
-		c.PrevCancel = rapid.Bool().Draw(rt, "prev_cancel")
+		switch rapid.IntRange(0, 2).Draw(rt, "prev_end") {
+		case 1:
+			c.PrevCancel = true
+		case 2:
+			c.PrevFail = true
+		}
 	}
 	switch k {
 	case "cancel_out", "cancel_in", "cancel_gate", "cancel_log", "cancel_busy", "handler_err", "handler_err_cancel", "mapper_err", "mapper_cols", "unsupported", "invalid", "undecodable":
@@ -210,11 +215,14 @@ func stopClasses(c *StopCase, o *StopObs) []string {
 	if o.ReaderAtStop != "" {
 		cls = append(cls, "reader-at-stop/"+o.ReaderAtStop)
 	}
-	if c.PrevOK && !c.PrevCancel {
+	if c.PrevOK && !c.PrevCancel && !c.PrevFail {
 		cls = append(cls, "after-successful-attempt")
 	}
 	if c.PrevOK && c.PrevCancel {
 		cls = append(cls, "after-cancelled-attempt")
+	}
+	if c.PrevOK && c.PrevFail {
+		cls = append(cls, "after-attempt-ended-by-handler-failure")
 	}
 	if c.PerturbWho != 0 {
 		cls = append(cls, fmt.Sprintf("perturb/who=%d/level=%d", c.PerturbWho, c.PerturbLevel))
